@@ -69,7 +69,7 @@ async def check_pool(ctx, case):
     kind_of_input = "absent" if pool["input"] is None else ("empty" if pool["input"] == "" else ("offered" if pool["input"] in offered else ("pool-member-not-offered" if any(e["q"] == pool["input"] for e in pool["entries"]) else ("fragment-of-offered" if pool["input"] in ", ".join(offered) else "foreign"))))
     ctx.count("input:" + kind_of_input)
     ctx.count("offered_none" if not offered and parent != "IS_FORBIDDEN" else "offered_some")
-    world = E.World("c17", rc=asg, fc={k: True for k in POOLS.fc})
+    world = E.World("c17", rc=asg, fc={k: random.Random(case["schedule_seed"] + int(k)).random() < 0.5 for k in POOLS.fc})
     obj = TB.build_data_element(pool)
     rng = random.Random(case["schedule_seed"])
     if via == "direct":
